@@ -718,3 +718,45 @@ def moved_in_loop(run, fns, rule='R1', instance='moved-from-in-loop'):
                       '%s is moved from inside a loop but declared outside it and not re-assigned on the way round: from the second iteration on the moved-from (empty) object is used - e.g. only the first segment of a write gets its drop callback' % x['name'],
                       'the loop is left (or %s re-assigned) before the move can execute again' % x['name'])
     return n
+
+
+# ---------------------------------------------------------------------------
+# user-written copy/move members transfer every field
+def special_members_cover(run, classes, rule='R7', instance='copy-move-covers-fields'):
+    """Every user-provided copy/move constructor and copy/move assignment operator of the named classes writes every
+    field of the class (a mem-initialiser or an assignment to the own field). A defaulted member does so by
+    construction; a hand-written one that forgets a field leaves the old value in the target - e.g. an error code that
+    stays with the vector slot when queue entries are shifted. Returns the number of members examined."""
+    fx = run.fx
+    n = 0
+    for cls in classes:
+        recs = fx.record(cls, required=False)
+        if not recs:
+            continue
+        rec = recs[0]
+        fields = [f['name'] for f in rec['fields']]
+        short = cls.split('::')[-1]
+        cands = list(fx.fn(cls + '::' + short, required=False)) + list(fx.fn(cls + '::operator=', required=False))
+        seen = set()
+        for f in cands:
+            if f.usr in seen or f.d.get('defaulted') or f.cfg is None or len(f.params) != 1:
+                continue
+            seen.add(f.usr)
+            pt = f.ty(f.params[0]['t']).replace('const ', '').replace('&', '').strip()
+            if strip_targs(pt).split('::')[-1] != short:
+                continue
+            n += 1
+            run.touch(f)
+            written = {it.get('field') for it in getattr(f, 'inits', []) if it.get('written')}
+            for a in q.field_accesses(f):
+                if a.is_write and q.is_this(q.access_root(a.node)):
+                    written.add(a.field.split('::')[-1])
+            # delegation to another special member of the same class counts as writing everything
+            if any(c.get('usr') in {g.usr for g in cands} and c.get('usr') != f.usr for c in f.calls()):
+                written |= set(fields)
+            missing = [x for x in fields if x not in written]
+            kind = ('move' if '&&' in f.sig else 'copy') + (' assignment' if f.norm.endswith('operator=') else ' constructor')
+            run.check(not missing, rule, instance, '%s %s' % (cls, kind), f.loc(),
+                      'the hand-written %s of %s does not transfer %s: the target keeps its previous value of that field (when container elements are shifted by move-assignment the value stays with the slot, not with the element)' % (kind, short, ', '.join(missing)),
+                      'writes all %d fields' % len(fields))
+    return n
